@@ -4,6 +4,13 @@ import json, sys
 pid, var = sys.argv[1], (sys.argv[2] if len(sys.argv) > 2 else "a")
 p = [json.loads(l) for l in open('/verif/properties.jsonl') if json.loads(l)['id'] == pid][0]
 wt = "/tmp/seed-%s%s" % (pid, var)
+import glob, re
+tried = []
+for d in sorted(glob.glob('/verif/seeded/%s?/patch.diff' % pid)):
+    fns = sorted(set(m.group(1) for l in open(d) if l.startswith('@@') for m in [re.search(r'(\w+)\s*\([^()]*\)?\s*$', l.split('@@')[-1])] if m))
+    files = sorted(set(re.findall(r'^\+\+\+ b/(\S+)', open(d).read(), re.M)))
+    tried.append("%s (%s)" % (", ".join(files), ", ".join(fns) if fns else "?"))
+avoid = ("* Earlier testers already tried changes in: " + "; ".join(tried) + ". Pick a DIFFERENT function and, if the property has several clauses, a different clause; prefer a clause that looks hard to test (an error/rollback path, a boundary, an interaction of two features, a rarely used flag).\n") if tried else ""
 print(f"""You are testing how well a verification effort detects regressions in the C library hwloc (open-mpi/hwloc, version 3.0.0a1). You get ONE behavioural property that the library is supposed to satisfy. Your job: craft a realistic, subtle change to hwloc's source that BREAKS this property while the library still compiles and the existing test suite still passes, and demonstrate it.
 
 Property {p['id']}: {p['title']}
@@ -15,7 +22,7 @@ Rules:
 * Build the worktree in place: `cd {wt} && ./autogen.sh >/dev/null 2>&1 && ./configure >/dev/null && make -j6 >/dev/null` (a few minutes; `configure` is not under version control). The existing test suite is `make -k check -j6` (174 test programs/scripts in this configuration; sum the `# PASS:`/`# FAIL:` counts of all "Testsuite summary" blocks; the test `tests/hwloc/linux/gather/test-gather-topology.sh` is flaky under machine load and may be ignored). Your change must keep the suite passing.
 * NEVER use `git stash` (the stash is shared by all worktrees of /repo and other people are working in other worktrees). To compare with/without your change: `git diff > /tmp/{pid}{var}.patch; git checkout -- hwloc include utils; make -j6; ...; git apply /tmp/{pid}{var}.patch; make -j6`.
 * /repo's recent history contains many "fix:" commits (git log --oneline | head -60): do not simply revert one of them; invent a different change.
-* The change must be the kind of mistake a maintainer could plausibly make in a refactoring or "optimisation" (an off-by-one at a boundary, a dropped update on one path, a wrong flag/branch on a rarely used code path, two sites that each look fine alone, state not refreshed after a particular sequence...). It must need something SPECIFIC to manifest: a particular multi-step sequence of API calls, an unusual input, a boundary size, a particular flag combination — NOT something that any ordinary use exposes at once, and not a crash on the common path. Do not add dead code, comments saying it is a bug, or special-casing of magic inputs. Keep it small (a few lines).
+{avoid}* The change must be the kind of mistake a maintainer could plausibly make in a refactoring or "optimisation" (an off-by-one at a boundary, a dropped update on one path, a wrong flag/branch on a rarely used code path, two sites that each look fine alone, state not refreshed after a particular sequence...). It must need something SPECIFIC to manifest: a particular multi-step sequence of API calls, an unusual input, a boundary size, a particular flag combination — NOT something that any ordinary use exposes at once, and not a crash on the common path. Do not add dead code, comments saying it is a bug, or special-casing of magic inputs. Keep it small (a few lines).
 * Write a demonstration: a small C program (linked against the worktree's built library: `gcc demo.c -I{wt}/include {wt}/hwloc/.libs/libhwloc.so -Wl,-rpath,{wt}/hwloc/.libs -o demo`) or a shell script using the built tools, which exits non-zero / prints FAIL with your change and exits 0 / prints PASS without it (verify both, see the next rule).
 * Deliver, inside {wt}/SEED/: `patch.diff` (output of `git diff` for the source change only), the demonstration source (`demo.c` or `demo.sh`) with build/run instructions in a comment at the top, and `meta.json` with keys: property, summary (what the change does), needs (what specific sequence/input/config is needed for it to manifest), ran (the commands you ran and what they printed, incl. the test-suite totals with the change).
 * Leave the worktree in place when you finish (I will collect SEED/ and remove it). Final message: a 10-line summary.""")
